@@ -12,6 +12,7 @@ as a subprocess) and the ids printed / run are compared with the same expectatio
 """
 
 import io
+import hashlib
 import json
 import os
 import random
@@ -555,11 +556,15 @@ def run(tier, pid="C19"):
                 got += 1
                 with_prog = bool(row["filt"]) and n % every == 3
                 replay_row(rep, row, n, exp_cfg, prog=(tmpdir, rnd) if with_prog else None)
-                if row["filt"] and len(row["leaves"]) >= 3 and len(subs) < 3 and n % 1237 == 11 and nest(row["nodes"])["k"] != "holder":
-                    subs.append((row, n))
+                # candidates for the child-process runs: chosen by content (TLC's export order varies between runs)
+                if row["filt"] and len(row["leaves"]) >= 3 and nest(row["nodes"])["k"] != "holder":
+                    hk = int(hashlib.sha1(jdump(row["nodes"]).encode()).hexdigest(), 16)
+                    if hk % 53 == 7:
+                        subs.append((hk, row, n))
             if got != r.distinct:
                 raise tlc.MachineryError("C19 %s: %d rows exported for %d distinct states" % (exp_cfg, got, r.distinct))
             nrows += got
+        subs = [(row, hk % 2) for hk, row, n in sorted(subs, key=lambda x: x[0])[:3]]
         for row, n in subs:
             for ids in (None, row["filt"][rnd.randrange(len(row["filt"]))]):
                 bad = check_subprocess(row, n % 2, tmpdir, ids)
